@@ -201,28 +201,131 @@ Definition hev_of (cmd : command) (sc : scripts) : hev :=
   | _ => HOther
   end.
 
+(* inversion of abs_handle, command by command *)
+Lemma abs_init_inv schema st sc rep st' sc' :
+  abs_init errtab schema (st, sc) = Some (rep, (st', sc')) -> st' = st /\ a_calls rep = [CInit schema].
+Proof.
+  unfold abs_init. destruct (pop_i sc) as [[prog tag] sc1].
+  destruct (negb (no_tag tag)); [discriminate|].
+  destruct prog as [|code msg| |];
+    try (destruct (err_msg_of errtab code msg); [|discriminate]);
+    intro H; inversion H; subst; auto.
+Qed.
+
+Lemma handle_query q st sc rep st' sc' :
+  abs_handle fpext fptrunc errtab (CmdQuery q) (st, sc) = Some (rep, (st', sc')) ->
+  st' = st /\
+  (if is_prefix sel_upper q || is_prefix sel_lower q then a_calls rep = []
+   else if is_prefix use_upper q || is_prefix use_lower q
+        then utf8_valid (skipn 4 q) = true /\ a_calls rep = [CInit (use_schema (skipn 4 q))]
+        else utf8_valid q = true /\ a_calls rep = [CQuery q]).
+Proof.
+  unfold abs_handle; cbv beta iota zeta.
+  destruct (is_prefix sel_upper q || is_prefix sel_lower q).
+  - destruct (pm_q errtab false None _); [|discriminate]. intro H; inversion H; subst; auto.
+  - destruct (is_prefix use_upper q || is_prefix use_lower q).
+    + destruct (utf8_valid (skipn 4 q)); [|discriminate].
+      intro H. apply abs_init_inv in H. destruct H; auto.
+    + destruct (utf8_valid q); [|discriminate]. destruct (pop_q sc) as [[prog tag] sc1].
+      destruct (negb (no_tag tag)); [discriminate|].
+      destruct (pm_q errtab false None prog); [|discriminate].
+      intro H; inversion H; subst; auto.
+Qed.
+
+Lemma handle_prepare q st sc rep st' sc' :
+  abs_handle fpext fptrunc errtab (CmdPrepare q) (st, sc) = Some (rep, (st', sc')) ->
+  utf8_valid q = true /\ a_calls rep = [CPrepare q] /\
+  st' = match fst (fst (pop_p sc)) with
+        | PReply id params _ =>
+            insert_key id {| sd_params := Nlen params mod 65536; sd_bound := []; sd_long := [] |} st
+        | _ => st end.
+Proof.
+  unfold abs_handle; cbv beta iota zeta.
+  destruct (utf8_valid q); [|discriminate].
+  destruct (pop_p sc) as [[prog tag] sc1]. cbn [fst].
+  destruct (negb (no_tag tag)); [discriminate|].
+  destruct prog as [id params cols|code msg|];
+    try (destruct (err_msg_of errtab code msg); [|discriminate]);
+    intro H; inversion H; subst; auto.
+Qed.
+
+Lemma handle_init schema st sc rep st' sc' :
+  abs_handle fpext fptrunc errtab (CmdInit schema) (st, sc) = Some (rep, (st', sc')) ->
+  utf8_valid schema = true /\ st' = st /\ a_calls rep = [CInit schema].
+Proof.
+  unfold abs_handle; cbv beta iota zeta.
+  destruct (utf8_valid schema); [|discriminate].
+  intro H. apply abs_init_inv in H. destruct H; auto.
+Qed.
+
+Lemma handle_long id param data st sc rep st' sc' :
+  abs_handle fpext fptrunc errtab (CmdLongData id param data) (st, sc) = Some (rep, (st', sc')) ->
+  exists sd, lookup id st = Some sd /\ a_calls rep = [] /\
+    st' = insert_key id {| sd_params := sd_params sd; sd_bound := sd_bound sd;
+                           sd_long := insert_key param
+                             ((match lookup param (sd_long sd) with Some d => d | None => [] end) ++ data)
+                             (sd_long sd) |} st.
+Proof.
+  unfold abs_handle; cbv beta iota zeta.
+  destruct (lookup id st) as [sd|]; [|discriminate].
+  intro H; inversion H; subst. exists sd. auto.
+Qed.
+
 (* every command except EXECUTE *)
 Lemma step_matches cmd st sc h rep st' sc' :
   (forall id b, cmd <> CmdExecute id b) ->
   reg_matches st h ->
   abs_handle fpext fptrunc errtab cmd (st, sc) = Some (rep, (st', sc')) ->
   reg_matches st' (h ++ [hev_of cmd sc]).
-Admitted.
+Proof.
+  intros Hne Hreg Hh.
+  destruct cmd as [q|a|schema|q|id b|id param data|id| |].
+  - apply handle_query in Hh. destruct Hh as [-> _]. cbn [hev_of]. apply reg_matches_other, Hreg.
+  - unfold abs_handle in Hh. inversion Hh; subst. cbn [hev_of]. apply reg_matches_other, Hreg.
+  - apply handle_init in Hh. destruct Hh as (_ & -> & _). cbn [hev_of]. apply reg_matches_other, Hreg.
+  - apply handle_prepare in Hh. destruct Hh as (Hu & _ & ->). cbn [hev_of]. rewrite Hu.
+    destruct (fst (fst (pop_p sc))) as [id params cols|code msg|].
+    + apply reg_matches_prepare, Hreg.
+    + apply reg_matches_other, Hreg.
+    + apply reg_matches_other, Hreg.
+  - exfalso. exact (Hne id b eq_refl).
+  - apply handle_long in Hh. destruct Hh as (sd & Hlk & _ & ->). cbn [hev_of].
+    apply reg_matches_long; assumption.
+  - unfold abs_handle in Hh. inversion Hh; subst. cbn [hev_of]. apply reg_matches_close, Hreg.
+  - unfold abs_handle in Hh. discriminate.
+  - unfold abs_handle in Hh. inversion Hh; subst. cbn [hev_of]. apply reg_matches_other, Hreg.
+Qed.
 
 (* gate: EXECUTE / SEND_LONG_DATA for an id the history says is not live never succeed *)
 Lemma gate_execute id block st sc h :
   reg_matches st h -> live h id = false ->
   abs_handle fpext fptrunc errtab (CmdExecute id block) (st, sc) = None /\ lookup id st = None.
-Admitted.
+Proof.
+  intros Hreg Hl. apply live_none in Hl. specialize (Hreg id). rewrite Hl in Hreg.
+  destruct (lookup id st) as [sd|] eqn:E; [contradiction|].
+  split; [|reflexivity]. unfold abs_handle; cbv beta iota zeta. rewrite E. reflexivity.
+Qed.
 Lemma gate_long_data id param data st sc h :
   reg_matches st h -> live h id = false ->
   abs_handle fpext fptrunc errtab (CmdLongData id param data) (st, sc) = None /\ lookup id st = None.
-Admitted.
+Proof.
+  intros Hreg Hl. apply live_none in Hl. specialize (Hreg id). rewrite Hl in Hreg.
+  destruct (lookup id st) as [sd|] eqn:E; [contradiction|].
+  split; [|reflexivity]. unfold abs_handle; cbv beta iota zeta. rewrite E. reflexivity.
+Qed.
 (* every CLOSE reaches on_close exactly once, sends nothing, whether or not the id was live *)
 Lemma close_always id st sc :
   abs_handle fpext fptrunc errtab (CmdClose id) (st, sc)
     = Some ({| a_calls := [CClose id]; a_msgs := [] |}, (remove_key id st, sc)).
-Admitted.
+Proof. reflexivity. Qed.
+
+Lemma delivered_all_ext l1 l2 types ps :
+  (forall p, lookup p l1 = lookup p l2) ->
+  forall i, delivered_all fpext l1 types i ps = delivered_all fpext l2 types i ps.
+Proof.
+  intro Hext. induction ps as [|p r IH]; intro i; cbn [delivered_all]; [reflexivity|].
+  rewrite IH. unfold delivered. rewrite Hext. reflexivity.
+Qed.
 
 (* EXECUTE of a live statement: the shim is given exactly the parameters the client bound, decoded
    with the types of this execution (rebind) or the latest bound ones (reuse), long-data
@@ -240,7 +343,44 @@ Theorem exec_delivers id ps b st sc h v inners x sc' msgs :
       Some ({| a_calls := CExecute id :: param_calls (if b then types_of ps else v_types v) inners;
                a_msgs := msgs |}, (st', sc')) /\
     reg_matches st' (h ++ [HExec id ps b]).
-Admitted.
+Proof.
+  intros Hreg Habs Hn Hlt Htok Hlen Hdel Hpop Hpull Hconvs Hret Hmsgs.
+  pose proof (Hreg id) as Hid. rewrite Habs in Hid.
+  destruct (lookup id st) as [sd|] eqn:Hlk; [|contradiction].
+  destruct Hid as (Hp & Hb & Hl).
+  assert (Hdel' : delivered_all fpext (sd_long sd) (if b then types_of ps else v_types v) 0 ps
+                  = Some inners).
+  { rewrite <- Hdel. apply delivered_all_ext. exact Hl. }
+  assert (Hex : exists final,
+     abs_pull fpext fptrunc (S (length ps)) None []
+       (pstate0 (Nlen ps) (exec_block ps b) (sd_long sd) (sd_bound sd))
+       = Some (param_calls (if b then types_of ps else v_types v) inners, final) /\
+     p_bound final = (match ps, b with _ :: _, true => types_of ps | _, _ => v_types v end)).
+  { destruct b.
+    - destruct ps as [|p0 ps'].
+      + cbn [delivered_all] in Hdel'. injection Hdel' as <-.
+        exists {| p_params := 0; p_input := []; p_nullmap := Some []; p_col := 0;
+                  p_long := sd_long sd; p_bound := sd_bound sd |}.
+        split; [reflexivity|exact Hb].
+      + destruct (pull_bound fpext fptrunc (p0 :: ps') (sd_long sd) (sd_bound sd) inners
+                    Hlt (Htok eq_refl) Hdel') as (final & Hf & Hbd & _).
+        exists final. split; [exact Hf|]. apply Hbd. discriminate.
+    - destruct (pull_reuse fpext fptrunc ps (sd_long sd) (sd_bound sd) inners Hlt)
+        as (final & Hf & Hbd & _).
+      + rewrite Hb. apply Hlen. reflexivity.
+      + rewrite Hb. exact Hdel'.
+      + exists final. split; [rewrite Hf, Hb; reflexivity|]. rewrite Hbd, Hb.
+        destruct ps; reflexivity. }
+  destruct Hex as (final & Hf & Hbd).
+  exists (insert_key id {| sd_params := sd_params sd; sd_bound := p_bound final; sd_long := [] |} st).
+  split.
+  - unfold abs_handle; cbv beta iota zeta. rewrite Hlk, Hpop. cbv beta iota zeta.
+    rewrite Hret, Hpull, Hconvs. cbn [no_tag negb].
+    rewrite Hp, Hn.
+    replace (N.to_nat (Nlen ps)) with (length ps) by (unfold Nlen; symmetry; apply Nat2N.id).
+    unfold pstate0 in Hf. rewrite Hf, Hmsgs. reflexivity.
+  - eapply reg_matches_exec; eauto.
+Qed.
 
 (* ---------- (3) dispatch (C02) ---------- *)
 
@@ -262,14 +402,65 @@ Definition primary_call (cmd : command) : option call :=
   end.
 Definition is_param_call (c : call) : Prop := match c with CParam _ _ | CConv _ => True | _ => False end.
 
+Lemma abs_pull_calls fuel : forall n convs p cs p',
+  abs_pull fpext fptrunc fuel n convs p = Some (cs, p') -> Forall is_param_call cs.
+Proof.
+  induction fuel as [|f IH]; intros n convs p cs p' H.
+  - cbn [abs_pull] in H. inversion H. constructor.
+  - cbn [abs_pull] in H.
+    destruct n as [[|m]|]; [inversion H; constructor| |];
+      (destruct (params_next fpext p) as [[[[ct v]|] p1]|e|s]; try discriminate;
+       [|inversion H; constructor];
+       destruct (convert fptrunc _ v) as [r|e|s]; try discriminate;
+       destruct (abs_pull fpext fptrunc f _ _ p1) as [[cs1 p2]|] eqn:E; try discriminate;
+       inversion H; subst; apply IH in E;
+       constructor; [exact I|];
+       destruct r; [constructor; [exact I|exact E]|exact E]).
+Qed.
+
+Lemma handle_execute id block st sc rep st' sc' :
+  abs_handle fpext fptrunc errtab (CmdExecute id block) (st, sc) = Some (rep, (st', sc')) ->
+  exists cs, a_calls rep = CExecute id :: cs /\ Forall is_param_call cs.
+Proof.
+  unfold abs_handle; cbv beta iota zeta.
+  destruct (lookup id st) as [sd|]; [|discriminate].
+  destruct (pop_x sc) as [x sc1].
+  destruct (negb (no_tag (x_ret x))); [discriminate|].
+  destruct (abs_pull fpext fptrunc _ _ _ _) as [[cs p]|] eqn:E; [|discriminate].
+  destruct (pm_q errtab true None (x_prog x)); [|discriminate].
+  intro H; inversion H; subst. exists cs. split; [reflexivity|].
+  eapply abs_pull_calls; exact E.
+Qed.
+
 Lemma dispatch cmd ss rep ss' :
   abs_handle fpext fptrunc errtab cmd ss = Some (rep, ss') ->
   match primary_call cmd with
   | None => a_calls rep = []
   | Some c => exists params, a_calls rep = c :: params /\ Forall is_param_call params /\
-                             (forall id b, cmd <> CmdExecute id b -> params = [])
+                             ((forall id b, cmd <> CmdExecute id b) -> params = [])
   end.
-Admitted.
+Proof.
+  destruct ss as [st sc], ss' as [st' sc']. intro Hh.
+  destruct cmd as [q|a|schema|q|id b|id param data|id| |]; cbn [primary_call].
+  - apply handle_query in Hh. destruct Hh as [_ Hh]. unfold is_builtin_query, is_use_query.
+    destruct (is_prefix sel_upper q || is_prefix sel_lower q); [exact Hh|].
+    destruct (is_prefix use_upper q || is_prefix use_lower q); destruct Hh as [_ Hh];
+      exists []; (split; [exact Hh|]); (split; [constructor|intros _; reflexivity]).
+  - unfold abs_handle in Hh. inversion Hh; subst. reflexivity.
+  - apply handle_init in Hh. destruct Hh as (_ & _ & Hh).
+    exists []. split; [exact Hh|]. split; [constructor|intros _; reflexivity].
+  - apply handle_prepare in Hh. destruct Hh as (_ & Hh & _).
+    exists []. split; [exact Hh|]. split; [constructor|intros _; reflexivity].
+  - apply handle_execute in Hh. destruct Hh as (cs & Hc & HF).
+    exists cs. split; [exact Hc|]. split; [exact HF|].
+    intros Hne. exfalso. apply (Hne id b). reflexivity.
+  - apply handle_long in Hh. destruct Hh as (sd & _ & Hh & _). exact Hh.
+  - unfold abs_handle in Hh. inversion Hh; subst.
+    exists []. split; [reflexivity|]. split; [constructor|intros _; reflexivity].
+  - unfold abs_handle in Hh. discriminate.
+  - unfold abs_handle in Hh. inversion Hh; subst. reflexivity.
+Qed.
+
 
 (* text that is not valid UTF-8 is never handed to the shim *)
 Lemma dispatch_utf8 cmd ss rep ss' :
@@ -279,7 +470,15 @@ Lemma dispatch_utf8 cmd ss rep ss' :
   | CmdPrepare q | CmdInit q => utf8_valid q = true
   | _ => True
   end.
-Admitted.
+Proof.
+  destruct ss as [st sc], ss' as [st' sc']. intro Hh.
+  destruct cmd as [q|a|schema|q|id b|id param data|id| |]; try exact I.
+  - apply handle_query in Hh. destruct Hh as [_ Hh]. unfold is_builtin_query, is_use_query.
+    destruct (is_prefix sel_upper q || is_prefix sel_lower q); [discriminate|].
+    intros _. destruct (is_prefix use_upper q || is_prefix use_lower q); apply Hh.
+  - apply handle_init in Hh. apply Hh.
+  - apply handle_prepare in Hh. apply Hh.
+Qed.
 
 End WithOracles.
 
@@ -292,8 +491,232 @@ Definition bare_name (name : bytes) : Prop :=
   no_prefix ws_seqs name /\ no_prefix (map (@rev byte) ws_seqs) (rev name) /\
   no_prefix [[x60]] name /\ no_prefix [[x60]] (rev name) /\ no_prefix [[x3b]] (rev name).
 
+(* --- generic facts about strip_one / strip_many / trimming --- *)
+Lemma strip_one_none pats s :
+  strip_one pats s = None <-> (forall p, In p pats -> is_prefix p s = false).
+Proof.
+  induction pats as [|p ps IH]; cbn [strip_one In].
+  - split; [intros _ p []|reflexivity].
+  - destruct (is_prefix p s) eqn:E.
+    + split; [discriminate|]. intro H. pose proof (H p (or_introl eq_refl)) as C.
+      rewrite E in C. discriminate.
+    + split.
+      * intros H q [<-|Hq]; [exact E|]. apply (proj1 IH H). exact Hq.
+      * intros H. apply (proj2 IH). intros q Hq. apply H. right. exact Hq.
+Qed.
+
+Lemma is_prefix_app_inv p : forall a b,
+  is_prefix p (a ++ b) = true ->
+  is_prefix p a = true \/ exists c p2 b', p = a ++ c :: p2 /\ b = c :: b'.
+Proof.
+  induction p as [|x p IH]; intros a b H.
+  - left. reflexivity.
+  - destruct a as [|y a].
+    + right. cbn [app] in H. destruct b as [|c b']; cbn [is_prefix] in H; [discriminate|].
+      apply andb_prop in H. destruct H as [H1 _]. apply byte_eqb_eq in H1. subst c.
+      exists x, p, b'. split; reflexivity.
+    + cbn [app is_prefix] in H. apply andb_prop in H. destruct H as [H1 H2].
+      apply byte_eqb_eq in H1. subst y.
+      destruct (IH a b H2) as [Hl|(c & p2 & b' & -> & ->)].
+      * left. cbn [is_prefix]. rewrite byte_eqb_refl. exact Hl.
+      * right. exists c, p2, b'. split; reflexivity.
+Qed.
+
+(* bytes occurring in a pattern after its first byte *)
+Definition inner_bytes (pats : list bytes) : list byte := flat_map (@tl byte) pats.
+Definition safe_head (pats : list bytes) (rest : bytes) : Prop :=
+  match rest with [] => True | c :: _ => ~ In c (inner_bytes pats) end.
+
+Lemma no_prefix_app pats name rest :
+  name <> [] -> strip_one pats name = None -> safe_head pats rest ->
+  strip_one pats (name ++ rest) = None.
+Proof.
+  intros Hne Hnp Hsafe. apply strip_one_none. intros p Hp.
+  pose proof (proj1 (strip_one_none _ _) Hnp p Hp) as Hf.
+  destruct (is_prefix p (name ++ rest)) eqn:E; [|reflexivity]. exfalso.
+  apply is_prefix_app_inv in E. destruct E as [E|(c & p2 & b' & -> & ->)].
+  - rewrite Hf in E. discriminate.
+  - destruct name as [|n0 name']; [contradiction|]. apply Hsafe.
+    unfold inner_bytes. apply in_flat_map. exists ((n0 :: name') ++ c :: p2). split; [exact Hp|].
+    cbn [app tl]. apply in_or_app. right. left. reflexivity.
+Qed.
+
+Definition good_pats (pats : list bytes) : Prop :=
+  (forall w, In w pats -> w <> []) /\
+  (forall w, In w pats -> forall r, strip_one pats (w ++ r) = Some r).
+
+Lemma strip_many_concat pats : good_pats pats ->
+  forall (l : list bytes) rest fuel, Forall (fun w => In w pats) l -> strip_one pats rest = None ->
+  (length l <= fuel)%nat -> strip_many fuel pats (concat l ++ rest) = rest.
+Proof.
+  intros [Hne Hdet] l. induction l as [|w l IH]; intros rest fuel HF Hnone Hlen.
+  - cbn [concat app]. destruct fuel; cbn [strip_many]; [reflexivity|]. rewrite Hnone. reflexivity.
+  - inversion HF as [|w' l' Hw HF']; subst. cbn [length] in Hlen.
+    destruct fuel as [|f]; [lia|]. cbn [concat strip_many]. rewrite <- app_assoc, (Hdet w Hw).
+    apply IH; [exact HF'|exact Hnone|lia].
+Qed.
+
+Lemma concat_length_ge (pats l : list bytes) :
+  (forall w, In w pats -> w <> []) -> Forall (fun w => In w pats) l ->
+  (length l <= length (concat l))%nat.
+Proof.
+  intros Hne HF. induction HF as [|w l Hw HF IH]; cbn [concat length]; [lia|].
+  rewrite app_length. specialize (Hne w Hw). destruct w; [contradiction|]. cbn [length]. lia.
+Qed.
+
+Lemma trim_start_run pats l rest :
+  good_pats pats -> Forall (fun w => In w pats) l -> strip_one pats rest = None ->
+  trim_start_pats pats (concat l ++ rest) = rest.
+Proof.
+  intros Hg HF Hn. unfold trim_start_pats. apply strip_many_concat; auto.
+  rewrite app_length. pose proof (concat_length_ge pats l (proj1 Hg) HF). lia.
+Qed.
+
+Lemma rev_concat (l : list bytes) : rev (concat l) = concat (rev (map (@rev byte) l)).
+Proof.
+  induction l as [|x l IH]; [reflexivity|].
+  cbn [concat map rev]. rewrite rev_app_distr, IH, concat_app. cbn [concat].
+  rewrite app_nil_r. reflexivity.
+Qed.
+
+Lemma trim_end_run pats l rest :
+  good_pats (map (@rev byte) pats) -> Forall (fun w => In w pats) l ->
+  strip_one (map (@rev byte) pats) (rev rest) = None ->
+  trim_end_pats pats (rest ++ concat l) = rest.
+Proof.
+  intros Hg HF Hn. unfold trim_end_pats. rewrite rev_app_distr, rev_concat.
+  rewrite trim_start_run; [apply rev_involutive|exact Hg| |exact Hn].
+  apply Forall_rev. apply Forall_map.
+  eapply Forall_impl; [|exact HF]. intros w Hw. apply in_map. exact Hw.
+Qed.
+
+Lemma rev_repeat {A} (x : A) n : rev (repeat x n) = repeat x n.
+Proof.
+  induction n as [|n IH]; [reflexivity|]. cbn [repeat rev]. rewrite IH. symmetry. apply repeat_cons.
+Qed.
+
+(* --- single-byte patterns --- *)
+Lemma good_single (c : byte) : good_pats [[c]].
+Proof.
+  split.
+  - intros w [<-|[]]. discriminate.
+  - intros w [<-|[]] r. cbn [strip_one app is_prefix]. rewrite byte_eqb_refl. reflexivity.
+Qed.
+Lemma repeat_run (c : byte) n : Forall (fun w => In w [[c]]) (repeat [c] n).
+Proof. induction n; cbn [repeat]; constructor; [left; reflexivity|assumption]. Qed.
+Lemma trim_start_byte (c : byte) n rest :
+  strip_one [[c]] rest = None -> trim_start_pats [[c]] (repeat c n ++ rest) = rest.
+Proof.
+  intro H. rewrite repeat_to_concat.
+  apply trim_start_run; [apply good_single|apply repeat_run|exact H].
+Qed.
+Lemma trim_end_byte (c : byte) n rest :
+  strip_one [[c]] (rev rest) = None -> trim_end_pats [[c]] (rest ++ repeat c n) = rest.
+Proof.
+  intro H. rewrite repeat_to_concat.
+  apply (trim_end_run [[c]]); [apply good_single|apply repeat_run|exact H].
+Qed.
+Lemma safe_single (c : byte) rest : safe_head [[c]] rest.
+Proof. unfold safe_head. destruct rest; [exact I|]. intro H. cbn in H. exact H. Qed.
+
+(* --- the white-space patterns --- *)
+Definition ws_rev : list bytes := Eval cbv in map (@rev byte) ws_seqs.
+Lemma ws_rev_eq : map (@rev byte) ws_seqs = ws_rev.
+Proof. reflexivity. Qed.
+
+Lemma good_ws : good_pats ws_seqs.
+Proof.
+  split.
+  - intros w Hin. unfold ws_seqs in Hin. cbn [In] in Hin.
+    repeat (destruct Hin as [<-|Hin]; [discriminate|]). destruct Hin.
+  - intros w Hin r. unfold ws_seqs in Hin. cbn [In] in Hin.
+    repeat (destruct Hin as [<-|Hin]; [reflexivity|]). destruct Hin.
+Qed.
+Lemma good_ws_rev : good_pats ws_rev.
+Proof.
+  split.
+  - intros w Hin. unfold ws_rev in Hin. cbn [In] in Hin.
+    repeat (destruct Hin as [<-|Hin]; [discriminate|]). destruct Hin.
+  - intros w Hin r. unfold ws_rev in Hin. cbn [In] in Hin.
+    repeat (destruct Hin as [<-|Hin]; [reflexivity|]). destruct Hin.
+Qed.
+
+Lemma In_existsb c l : In c l -> existsb (byte_eqb c) l = true.
+Proof. intro H. apply existsb_exists. exists c. split; [exact H|apply byte_eqb_refl]. Qed.
+
+Lemma safe_x60_ws r : safe_head ws_seqs (x60 :: r).
+Proof. unfold safe_head. intro H. apply In_existsb in H. vm_compute in H. discriminate. Qed.
+Lemma safe_x3b_ws r : safe_head ws_seqs (x3b :: r).
+Proof. unfold safe_head. intro H. apply In_existsb in H. vm_compute in H. discriminate. Qed.
+Lemma safe_x60_wsrev r : safe_head ws_rev (x60 :: r).
+Proof. unfold safe_head. intro H. apply In_existsb in H. vm_compute in H. discriminate. Qed.
+
+Lemma ws_heads_safe w : In w ws_seqs -> forall r, safe_head ws_seqs (w ++ r).
+Proof.
+  intros Hin r. unfold ws_seqs in Hin. cbn [In] in Hin.
+  repeat (destruct Hin as [<-|Hin];
+          [unfold safe_head; cbn [app]; intro H; apply In_existsb in H; vm_compute in H; discriminate|]).
+  destruct Hin.
+Qed.
+Lemma ws_run_safe l : Forall (fun w => In w ws_seqs) l -> safe_head ws_seqs (concat l).
+Proof.
+  intros HF. destruct HF as [|w l Hw HF]; [exact I|]. cbn [concat]. apply ws_heads_safe. exact Hw.
+Qed.
+
+Lemma use_spellings_n l1 l2 name n1 n2 n3 :
+  Forall (fun w => In w ws_seqs) l1 -> Forall (fun w => In w ws_seqs) l2 -> bare_name name ->
+  use_schema (concat l1 ++ repeat x60 n1 ++ name ++ repeat x60 n2 ++ repeat x3b n3 ++ concat l2) = name.
+Proof.
+  intros H1 H2 (Hne & Hws & Hwsr & Hq & Hqr & Hsr).
+  assert (Hrne : rev name <> []).
+  { intro E. apply Hne. rewrite <- (rev_involutive name), E. reflexivity. }
+  unfold no_prefix in *.
+  unfold use_schema, trim_ws.
+  (* 1: leading white space *)
+  rewrite (trim_start_run ws_seqs l1); [|exact good_ws|exact H1|].
+  2: { destruct n1 as [|n1]; [|reflexivity].
+       cbn [repeat app]. apply no_prefix_app; [exact Hne|exact Hws|].
+       destruct n2 as [|n2]; [|apply safe_x60_ws].
+       destruct n3 as [|n3]; [|apply safe_x3b_ws].
+       cbn [repeat app]. apply ws_run_safe, H2. }
+  (* 2: trailing white space *)
+  replace (repeat x60 n1 ++ name ++ repeat x60 n2 ++ repeat x3b n3 ++ concat l2)
+    with ((repeat x60 n1 ++ name ++ repeat x60 n2 ++ repeat x3b n3) ++ concat l2)
+    by (rewrite <- !app_assoc; reflexivity).
+  rewrite (trim_end_run ws_seqs l2); [|rewrite ws_rev_eq; exact good_ws_rev|exact H2|].
+  2: { rewrite ws_rev_eq, !rev_app_distr, !rev_repeat, <- !app_assoc.
+       destruct n3 as [|n3]; [|reflexivity].
+       destruct n2 as [|n2]; [|reflexivity].
+       cbn [repeat app]. apply no_prefix_app; [exact Hrne|rewrite <- ws_rev_eq; exact Hwsr|].
+       destruct n1 as [|n1]; [exact I|apply safe_x60_wsrev]. }
+  (* 3: trailing semicolons *)
+  replace (repeat x60 n1 ++ name ++ repeat x60 n2 ++ repeat x3b n3)
+    with ((repeat x60 n1 ++ name ++ repeat x60 n2) ++ repeat x3b n3)
+    by (rewrite <- !app_assoc; reflexivity).
+  rewrite (trim_end_byte x3b n3 (repeat x60 n1 ++ name ++ repeat x60 n2)).
+  2: { rewrite !rev_app_distr, !rev_repeat, <- !app_assoc.
+       destruct n2 as [|n2]; [|reflexivity].
+       cbn [repeat app]. apply no_prefix_app; [exact Hrne|exact Hsr|apply safe_single]. }
+  (* 4: leading back-ticks *)
+  rewrite (trim_start_byte x60 n1 (name ++ repeat x60 n2)).
+  2: { apply no_prefix_app; [exact Hne|exact Hq|apply safe_single]. }
+  (* 5: trailing back-ticks *)
+  apply (trim_end_byte x60 n2 name). exact Hqr.
+Qed.
+
 Lemma use_spellings ws1 q1 name q2 semis ws2 :
   ws_run ws1 -> ws_run ws2 -> bare_name name ->
   q1 = repeat x60 (length q1) -> q2 = repeat x60 (length q2) -> semis = repeat x3b (length semis) ->
   use_schema (ws1 ++ q1 ++ name ++ q2 ++ semis ++ ws2) = name.
-Admitted.
+Proof.
+  intros (l1 & Hl1 & ->) (l2 & Hl2 & ->) Hb Hq1 Hq2 Hs.
+  rewrite Hq1, Hq2, Hs. apply use_spellings_n; assumption.
+Qed.
+
+Print Assumptions step_matches.
+Print Assumptions exec_delivers.
+Print Assumptions gate_execute.
+Print Assumptions dispatch.
+Print Assumptions use_spellings.
+Print Assumptions hist_isolation.
+Print Assumptions hist_long_append.
